@@ -39,6 +39,8 @@ type Unit struct {
 	// Exec runs RunTape on a fresh tape for Seed with the given forced
 	// choices, and hands violations to the driver (confirm, shrink, report).
 	Exec func(forced map[string]int) *sim.Outcome
+	// Expired reports that the time budget is used up: enumerations stop early.
+	Expired func() bool
 }
 
 // Demonstrator is implemented by scenarios that carry fixed, tape-independent
